@@ -333,14 +333,9 @@ def run_waits(ctx, desc):
             return "ok"
 
         def deliver():
+            n = cond.waits
             rig.ext.send(0x700 + K, b"\x05")
-            # wait until the waiter is parked again, then deliver the boot-up
-            for _ in range(2000):
-                if cond.waiting.is_set():
-                    break
-                time.sleep(0.001)
-            with cond:
-                pass
+            cond.reentered(n)       # the waiter has seen the plain heartbeat and waits again (or has returned)
             rig.ext.send(0x700 + K, b"\x00")
             done["ok"] = True
         status, val = waits.run_waiter(waiter, cond, deliver)
